@@ -85,6 +85,10 @@ func main() {
 		}
 	case "impl":
 		vproto.Lines(runHist)
+	case "extract":
+		extractMain(os.Args[2:])
+	case "skeleton":
+		skeletonMain(os.Args[2:])
 	default:
 		os.Exit(2)
 	}
